@@ -175,6 +175,8 @@ def find_in(src, lo, hi, pattern):
     want = [t.text for t in significant(tokenize(pattern))]
     if want[:1] == ["pub"]:
         want = want[1:]
+        if want[:1] == ["("]:
+            want = want[want.index(")") + 1:]
     hits = []
     for (a, b) in split_items(src.toks, lo, hi):
         h = header_texts(src.toks, a, b)
@@ -485,6 +487,10 @@ def enclosing_stmt(src, lo, hi, k):
                     e = pos
                     break
             pos += 1
+        if e is None and pos >= hi:
+            # ran into the end of the body: tail expression of the fn
+            e = hi
+            tail = True
         if e is None:
             raise ExtractError("cannot delimit statement at %s:%d" % (src.rel, src.line_of(toks[k].start)))
         if s0 <= k <= e:
@@ -808,7 +814,13 @@ def rule_R8(ed, src, a, b):
     toks = src.toks
     bb = body_braces(src, a, b)
     if bb is None:
-        raise ExtractError("R8: struct without named fields (%s)" % src.rel)
+        # tuple struct: fields are inside the first parenthesis
+        k = header_start(toks, a, b)
+        while k < b and not (toks[k].kind == "punct" and toks[k].text == "("):
+            k += 1
+        if k >= b:
+            raise ExtractError("R8: struct without fields (%s)" % src.rel)
+        bb = (k, match_close(toks, k))
     bo, bc = bb
     k = bo + 1
     expect_field = True
@@ -1027,6 +1039,14 @@ class Unit:
                     raise ExtractError("lost anchor: %s has %d loops, contract names loop %d" % (label, len(ls), kth))
                 lc = match_close(toks, ls[kth - 1][1])
                 ed.insert(toks[lc].end, "\n" + text + "\n", "A", "proof hint after loop %d" % kth)
+            elif name == "bodyend":
+                # before the last statement / tail expression of the fn body
+                bo, bc = parts["body"]
+                ks = sig_indices(toks, bo + 1, bc)
+                if not ks:
+                    raise ExtractError("%s: empty body" % label)
+                s0, e, tail = enclosing_stmt(src, bo + 1, bc, ks[-1])
+                ed.insert(toks[s0].start, text + "\n", "A", "proof hint before the tail expression")
             elif name == "loopbody":
                 bo, bc = parts["body"]
                 ls = loops_in(src, bo + 1, bc)
